@@ -67,6 +67,13 @@ CHECKS = {
             "tags map consistently and injectively to clients, no method is dead or stray, names are valid identifiers and follow the naming strategy.",
             "Tag normalisation (case/punctuation variants are one tag) is re-implemented in the oracle; more than 4 operations per document are outside the bound.",
             "4 C07"),
+    "C04": ("exploration", "bounded exhaustive enumeration of operation shapes x every subset of optional arguments x value sets; generated client driven against an in-memory server and compared with a reference wire model",
+            "Every operation shape of the bounded space (single parameters over location x required x kind, name styles, pairs of location classes, every body kind incl. multiple "
+            "content types, all methods, path templates, path-item vs operation declaration) is called with every subset of its optional arguments and two value sets; the captured "
+            "httpx.Request must be exactly one request with the right method, substituted path, each supplied parameter under its spec name in its location, omitted optionals absent, "
+            "and a body whose content type and content equal the serialised argument.",
+            "Expected wire form is the reference model in mc/props/c04.py (style/explode variants not demanded); values outside the two-value menus are not covered.",
+            "4 C04"),
 }
 
 NOT_YET = {}
